@@ -239,11 +239,11 @@ Proof.
     destruct (IHe _ _ _ E) as [L R1]. split; [exact L|]. parts R1. apply tR_mk; auto.
   - rewrite compile_do in Hc. eapply cbranch_range; [exact H | exact Hc | lia | apply tR_rempty | exact I].
   - cbn [compile] in Hc. destruct (compile e c) as [r1 c1] eqn:E. destruct (IHe _ _ _ E) as [L R1].
-    destruct (rt r1); inversion Hc; subst.
+    destruct (plain_assign r1); inversion Hc; subst.
     + split; [exact L|]. parts R1. apply tR_mk; [|exact I | reflexivity]. rewrite tL_app, A, tL_one. cbn [tS tI]. exact B.
     + cbn [mark fst]. split; [exact L|]. apply (tR_rename _ _ n) in R1. parts R1. apply tR_mk; [exact A | exact I | reflexivity].
   - cbn [compile] in Hc. destruct (compile e c) as [r1 c1] eqn:E. destruct (IHe _ _ _ E) as [L R1].
-    destruct (rt r1); inversion Hc; subst.
+    destruct (plain_assign r1); inversion Hc; subst.
     + split; [exact L|]. parts R1. apply tR_mk; [exact A | cbn [tE tI]; exact B | reflexivity].
     + cbn [mark fst]. split; [exact L|]. apply tR_rename. exact R1.
   - destruct es as [|e0 es]; [cbn [compile] in Hc; inversion Hc; subst; split; [lia | destruct b; reflexivity]|].
